@@ -91,6 +91,8 @@ def install_spec_helpers(g):
     g["ln"] = SpecFn("ln", _mathfn("log"))
     g["exp"] = SpecFn("exp", _mathfn("exp"))
     g["pow10"] = SpecFn("pow10", _pow10)
+    for nm in ("sin", "cos", "tan", "sqrt"):
+        g[nm] = SpecFn(nm, _mathfn(nm))
     g["implies"] = SpecFn("implies", _implies)
     g["iff"] = SpecFn("iff", _iff)
     g["ite"] = SpecFn("ite", _ite)
@@ -129,5 +131,5 @@ def n_approx(a, b, rel=1e-9):
 
 import math as _math
 
-NATIVE_HELPERS = {"log10": _math.log10, "ln": _math.log, "exp": _math.exp, "pow10": lambda x: 10.0 ** x,"implies": n_implies, "iff": n_iff, "ite": n_ite, "same_object": n_same_object,
+NATIVE_HELPERS = {"sin": _math.sin, "cos": _math.cos, "tan": _math.tan, "sqrt": _math.sqrt, "log10": _math.log10, "ln": _math.log, "exp": _math.exp, "pow10": lambda x: 10.0 ** x,"implies": n_implies, "iff": n_iff, "ite": n_ite, "same_object": n_same_object,
                   "typename": n_typename, "approx": n_approx}
